@@ -6,6 +6,7 @@ CONSTANTS
  MaxAttempts = 3
  MaxFaults = 1000000
  CanonOrder = FALSE
+ ErrCodes = {3}
  MaxDown = 3
  DevRetryOnTimeout = FALSE
  DevDropFailed = FALSE
